@@ -984,6 +984,7 @@ class _FakeDecomp:
         self.crc = 0x1234 if script[0] == "foldercrc" else None
         self.digest = 0
         self.consumed = 0            # packed bytes taken so far: grows on every call, an empty chunk is not a stall
+        self.produced = 0            # bytes put out by the coders of the chain (the stall guard compares it, too)
 
     def decompress(self, fp, max_length=-1):
         if self.script[0] == "err":
